@@ -80,6 +80,61 @@ claim("C19", "proof",
       TB + " Partial: enum visit (unknown tag) not modelled yet; theorem not yet closed.",
       "differential correspondence of a Coq traversal model; Coq theorem stated (proof pending)")
 
+claim("C06", "proof",
+      "Checked.v transcribes size_bytes_checked_visitor + the generated visit chains (assertions disabled, every read "
+      "bounds-tracked). Properties_C06.v: the safety half of the property is REFUTED for the faithful model by two "
+      "machine-checked witnesses (reads at offsets >= n: data length prefix read before on_data validates; fields read at "
+      "compiled offsets although only the wire blockLength was validated) -- both are recorded open findings; exactness is "
+      "decided by correspondence against the declarative specification Checked.described_fit (exact integer arithmetic). "
+      "Check: every truncation point and every blockLength/numInGroup/length overwrite (0, +-1, just fits/exceeds, type max) "
+      "of reference-encoder images, buffer ending on a PROT_NONE page, asserts off: no fault, verdict == described_fit, "
+      "callbacks <= 4(n+1)+16, implementation == model. Two defects were repaired (unbounded work for zero-length flat "
+      "entries; uint64 data length wrap).",
+      TB + " Partial: no closed theorem for exactness yet; safety holds only outside the two recorded findings.",
+      "Coq model + refutation witnesses (vm_compute) + fault enumeration (truncation/overwrite sweep) against a declarative spec")
+claim("C12", "proof",
+      "10 theorems (Properties_C12.v) over GroupIter.v, written through CInt for all 16 (numInGroup, blockLength) type pairs: "
+      "begin+size=end, it[n]=*(it+n), (it+n)-n=it for both signs, distance/order = index, entry i at data start + i x wire "
+      "blockLength (blockLength 0 included), out-of-range subscript asserts, nested forward chain, resize frame; legacy "
+      "arithmetic refuted by vm_compute. Correspondence: sbeppc-generated 16-pair schema, iterator expressions to depth 3 "
+      "over boundary sizes/block lengths, checks on and off, UBSan build.",
+      TB + " difference_type is pinned by the existing tests: distances above max/2 are outside the theorems' guards.",
+      "Coq proof (iterator algebra through a C++ integer model) + differential correspondence")
+claim("C13", "proof",
+      "6 theorems (Properties_C13.v): every dynamic_array_ref operation refines the std::vector operation (contents, size, "
+      "returned position) for all four length types and both byte orders under vector validity; frame (no byte outside "
+      "prefix+max(old,new) payload changes); no spurious assertion; erase up to end(); lifted to arbitrary op sequences by "
+      "induction. Correspondence: exhaustive sequences to depth 3 from every small state, random sequences of length 200, "
+      "4 length types x 2 byte orders x char/uint8/int8, asserts on/off.",
+      TB, "Coq refinement proof (concrete buffer -> abstract vector) + exhaustive small-scope differential correspondence")
+claim("C16", "proof",
+      "16 theorems (Properties_C16.v): default/nullopt is null, has_value/value_or/in_range, all six comparison operators "
+      "in BOTH implementations (pre-C++20 operators and operator<=>) equal the documented order for all 11 primitive types "
+      "and all values incl. NaN/inf (axiom-free IEEE comparison on bit patterns, cross-checked against Flocq); the 33 "
+      "generator default literals denote the SBE defaults; explicit integer attribute texts are reproduced exactly. "
+      "Correspondence: 22 built-in + 79 generated types, full boundary cross product, C++11/17/20, 37k static_asserts.",
+      TB + " Decimal floating-point attribute literals are checked by the differential run only.",
+      "Coq proof (order/null algebra incl. IEEE-754 compare on bit patterns; finite literal tables by vm_compute) + differential correspondence")
+claim("C17", "proof",
+      "Theorem (Properties_C17.v): header/dimension composite members are laid out by the SBE rule inside the composite for "
+      "any order, custom offsets and extra members. The filler itself (Msg.do_fills / Layout.compile_fills: assignments of "
+      "schemaId, templateId, version, blockLength, numInGroup, numGroups, numVarDataFields at the members' offsets) is tied "
+      "by correspondence: every message and group level of random schemas with permuted/offset/ref-typed/extra header "
+      "members and optional counters, numInGroup in {0,1,7,type max,random}, random background: whole buffer afterwards "
+      "equals the model's, returned view is the header.",
+      TB + " Partial: frame/spec theorem for do_fills not yet proved.",
+      "Coq proof (composite layout) + differential correspondence of the filler model")
+claim("C20", "proof",
+      "7 theorems (Properties_C20.v) over IoModel.v (plan = mkdir/write steps in compile()'s emission order, executed as "
+      "primitive calls against an arbitrary fault oracle): exit 0 => every planned file exists with exactly its content; a "
+      "failed call => non-zero status and a diagnostic; no fault => status 0 and disk = plan; re-run into a populated "
+      "directory leaves files identical; the unchecked legacy write_file is refuted by vm_compute. Correspondence: LD_PRELOAD "
+      "shim failing the k-th mkdir/fopen/write/close for every k x {ENOSPC, EACCES, EIO, short write} for several schemas; "
+      "exit status, diagnostic, call trace and directory tree must equal IoModel.run and satisfy the property; determinism "
+      "by repeated runs (fresh, populated, different cwd/locale).",
+      TB + " Partial: determinism has no proof content in a functional model; EINTR/stdout failures not modelled.",
+      "Coq proof over an I/O plan model with a fault oracle + fault enumeration through an LD_PRELOAD shim")
+
 NOT_YET = {}
 ALL = ["C%02d" % i for i in range(1, 21)]
 
